@@ -188,8 +188,11 @@ class QsRun:
         elif op == "restart":
             self._quiesce()
             downtime = st[1] if len(st) > 1 else 0.0
-            live = sim.restart(downtime)
+            failed = st[2] if len(st) > 2 else 0
+            live = sim.restart(downtime, failed_attempts=failed)
             self.fault("restart")
+            if failed:
+                self.fault("restart-first-start-attempt-fails")
             if downtime:
                 self.fault("restart-with-downtime")
             for name in live:  # a restarted server's clients reconnect
@@ -462,7 +465,9 @@ class QsRun:
         if r < 0.6:
             a["result"] = {"r": rng.randrange(1000)}
         elif r < 0.9:
-            a["error"] = rng.choice(["boom", "RuntimeError: x in function f, file g.py, line 3"])
+            # (an error is whatever JSON value the worker reports: usually a string)
+            a["error"] = rng.choice(["boom", "RuntimeError: x in function f, file g.py, line 3", "boom",
+                                     {"code": 3, "msg": "x"}, ["boom", 1], 17])
         return ["send", name, "qfinish", a]
 
     def g_kill(self, sendable, live, deadc):
@@ -556,7 +561,12 @@ class QsRun:
         return ["jump", self.rng.choice([4, 59, 121, 121, 1201, 3601, 3700, -30])]
 
     def g_restart(self, sendable, live, deadc):
-        return ["restart"]
+        rng = self.rng
+        dt = rng.choice([0, 0, 0, 7, 130, 1300, 4000])  # down time, some of it across deadlines
+        failed = rng.choice([0, 0, 0, 1])  # start attempts that die before the server serves
+        if failed:
+            return ["restart", dt, failed]
+        return ["restart", dt] if dt else ["restart"]
 
     # ---- whole runs -----------------------------------------------------------
     def generate(self):
